@@ -12,4 +12,5 @@ import FerretVerif.Props.C15
 import FerretVerif.Props.C16
 import FerretVerif.Props.C17
 import FerretVerif.Props.C18
+import FerretVerif.Props.C19
 import FerretVerif.Props.C20
